@@ -10,7 +10,7 @@ RULE = ("dense arrays with 1..5 modes of size 1..4 (all-zero, singleton, generic
         "(structure-level vs model), orthogonalize(mu) and round*/default eps (dense-level); both default dtypes. "
         "distinct = (operation, format signature, shape, ranks); non-trivial = >1 mode or rank>1 or a factor")
 TRUSTED = ["orthogonalize/round clauses are decided here only at the dense level; their models and theorems are C13/C04",
-           "float rounding of the contraction itself (1e-9 scaled tolerance; 1e-7 after orthogonalisation/rounding at eps=1e-14)"]
+           "float rounding of the contraction itself (1e-9 scaled tolerance; 1e-10 after orthogonalisation/rounding at eps=1e-14)"]
 ASSUMPTIONS = ["inputs are WFstd tensors (documented formats, outer TT ranks 1)"]
 
 REEXPR = ["tt", "decomp", "decompsome", "clone", "transpose", "orthogonalize", "round", "round_tt", "round_tucker"]
@@ -38,6 +38,11 @@ def cases(rng, tier):
             c["bits"] = [rng.randint(0, 1) for _ in range(N)]
         if op == "orthogonalize":
             c["mu"] = rng.randint(-N, N - 1)
+        if op in ("orthogonalize", "round", "round_tt", "round_tucker") and rng.random() < 0.5:
+            # a component far below single precision but far above the default tolerance 1e-14: t + s*t2 with s in [1e-11, 1e-7]
+            # ("rounding at the default machine-precision tolerance never changes the array", whatever the default dtype)
+            c["tiny"] = {"s": 10 ** rng.uniform(-10, -7.5), "t2": gen_tensor(rng, shape, rmax=2, stream="float").to_json()}
+            c["dd"] = rng.choice(["float32", "float32", "float64"])
         out.append(c)
     return out
 
@@ -113,9 +118,18 @@ def run_case(ctx, case):
     ctx.count("op:" + op); ctx.count("dd:" + case["dd"])
     for k in set(t.kinds()):
         ctx.count("fmt:" + k)
+    exp_override = None
+
+    tiny = case.get("tiny")
+    if tiny is not None:
+        ctx.count("tiny_component")
 
     def impl():
+        nonlocal exp_override
         tt = t.to_tn()
+        if tiny is not None:
+            tt = tt + tiny["s"] * PT.from_json(tiny["t2"]).to_tn()
+            exp_override = from_tn(tt).dense()
         before = from_tn(tt)
         if op == "tt":
             r = tt.tt()
@@ -141,8 +155,11 @@ def run_case(ctx, case):
     if res[0] == "err":
         ctx.oracle("%s raised %s: %s" % (op, res[1], res[2]), case); ctx.count("impl_raise:" + res[1]); return
     r, got, after, before = res[1]
+    if exp_override is not None:
+        x = exp_override
     exp = x.transpose() if op == "transpose" else x
-    tol = 1e-9 if op in ("tt", "decomp", "decompsome", "clone", "transpose") else 1e-7
+    # orthogonalisation and rounding at eps=1e-14 (algorithm 'svd') lose a few ulps per sweep, nothing more
+    tol = 1e-9 if op in ("tt", "decomp", "decompsome", "clone", "transpose") else 1e-10
     ok, err = close(got, exp, rtol=tol)
     if not ok:
         ctx.oracle("%s changed the decompressed array (%s)" % (op, err), case); ctx.count("oracle_mismatch")
